@@ -1615,10 +1615,11 @@ def run_impl(case):
                            "msched": msched, "events": per_thread, "count": 0,
                            "wsites": sorted({(r.cell_ids.get(oid, -1), key) for key, oid, _, _ in r.writes}) if stream == "A" else None}
         distinct[k]["count"] += 1
-    # the dynamic probe runs for every stream-A case and once per shape (and operation mix) for the other streams
+    # the dynamic probe runs once per shape and operation mix
     pkey = (case["shape"], tuple(sorted(th["op"] for th in case["threads"])), json.dumps(case.get("modes", {}), sort_keys=True))
     gaps = []
-    if stream == "A":
+    if stream == "A" and pkey not in _PROBED_SHAPES:
+        _PROBED_SHAPES.add(pkey)
         gaps = untabled_writers(probe_writers(case, wide=False))
     elif pkey not in _PROBED_SHAPES:
         _PROBED_SHAPES.add(pkey)
@@ -1884,17 +1885,17 @@ def gen_cases(rng, tier, scale=1.0):
     # the inputs of the kernel-checked counter-schedule theorems of Props/C20.lean, replayed on the real code
     for sname, v0, v1 in CANONICAL:
         fl = pick_fields(rng, sname, 2)
-        cases.append({"stream": "A", "shape": sname, "sseed": 1, "max_pre": 2, "cap": 400,
+        cases.append({"stream": "A", "shape": sname, "sseed": 1, "max_pre": 2, "cap": 80 if quick else 400,
                       "threads": [{"op": "setattr", "field": fl[0], "value": v0},
                                   {"op": "setattr", "field": fl[1], "value": v1}]})
     for sname in A_SHAPES:
-        for _ in range(reps_a if (not quick or shape(sname).racy) else 1):
-            add("A", sname, 2, max_pre=max_pre, cap=120 if quick else 650)
-        if sname in ("array_int", "shared_set", "map_int") or not quick:
-            add("A", sname, 3, max_pre=2, cap=120 if quick else 600)
+        for _ in range(1 if quick else reps_a):
+            add("A", sname, 2, max_pre=max_pre, cap=80 if quick else 380)
+        if sname == "array_int" or not quick:
+            add("A", sname, 3, max_pre=2, cap=80 if quick else 300)
     for sname in A2_SHAPES:
         for _ in range(1 if quick else reps_a):
-            add("A", sname, 2, max_pre=max_pre, cap=100 if quick else 500)
+            add("A", sname, 2, max_pre=max_pre, cap=70 if quick else 200)
         if not quick:
             add("A", sname, 3, max_pre=2, cap=400)
     # the same correspondence at BYTECODE granularity: yield points = every attribute / item / call instruction of the site
@@ -1903,25 +1904,25 @@ def gen_cases(rng, tier, scale=1.0):
     flat_canon = [c for c in CANONICAL if c[0] not in A3_SHAPES]   # own-name reads are line-level events only
     for sname, v0, v1 in (rng.sample(flat_canon, 4) if quick else flat_canon):
         fl = pick_fields(rng, sname, 2)
-        cases.append({"stream": "A", "shape": sname, "sseed": 1, "max_pre": 1 if quick else 2, "cap": 120 if quick else 300,
+        cases.append({"stream": "A", "shape": sname, "sseed": 1, "max_pre": 1 if quick else 2, "cap": 120 if quick else 150,
                       "yield": "siteops",
                       "threads": [{"op": "setattr", "field": fl[0], "value": v0},
                                   {"op": "setattr", "field": fl[1], "value": v1}]})
     for sname in (rng.sample(A_SHAPES + A2_SHAPES, 2) if quick else A_SHAPES + A2_SHAPES):
-        add("A", sname, 2, max_pre=1 if quick else 2, cap=120 if quick else 150, **{"yield": "siteops"})
+        add("A", sname, 2, max_pre=1 if quick else 2, cap=120 if quick else 100, **{"yield": "siteops"})
     for sname in A3_SHAPES:
         for _ in range(1 if quick else reps_a):
-            add("A", sname, 2, max_pre=max_pre, cap=100 if quick else 500)
+            add("A", sname, 2, max_pre=max_pre, cap=70 if quick else 200)
     for sname, v0, v1 in CANONICAL_E:
         fl = pick_fields(rng, sname, 2)
-        cases.append({"stream": "E", "shape": sname, "sseed": 1, "max_pre": 2, "cap": 400, "yield": "sitelines",
+        cases.append({"stream": "E", "shape": sname, "sseed": 1, "max_pre": 2, "cap": 150 if quick else 400, "yield": "sitelines",
                       "threads": [{"op": "setattr", "field": fl[0], "value": v0},
                                   {"op": "setattr", "field": fl[1], "value": v1}]})
     reps_e = max(1, int((1 if quick else 3) * scale))
     for sname in (rng.sample(E_SHAPES, 10) if quick else E_SHAPES):
         for _ in range(reps_e):
             flat = sname in ("anyof", "oneof", "allof", "notfield") or sname.startswith("shared_")
-            add("E", sname, 2, max_pre=max_pre, cap=100 if quick else 320, **({"yield": "sitelines"} if flat else {}))
+            add("E", sname, 2, max_pre=max_pre, cap=50 if quick else 200, **({"yield": "sitelines"} if flat else {}))
     # twin declarations: every thread on a DIFFERENT declaration (other field / other class) of the same spelling
     def add_twin(stream, sname, n, directed=None, **kw):
         decls = roster(sname)
@@ -1948,18 +1949,18 @@ def gen_cases(rng, tier, scale=1.0):
         vk = set(shape(sname).extra["vk"].values())
         if any(k.startswith("opt-") for k in vk):
             # directed: one thread passes an explicit None, the other None / a value the earlier options reject
-            add_twin("E", sname, 2, directed=[None, None], max_pre=2, cap=60 if quick else 250, **ykw)
+            add_twin("E", sname, 2, directed=[None, None], max_pre=2, cap=45 if quick else 150, **ykw)
             if not quick or rng.random() < 0.5:
-                add_twin("E", sname, 2, directed=[None, 2.5], max_pre=2, cap=60 if quick else 250, **ykw)
+                add_twin("E", sname, 2, directed=[None, 2.5], max_pre=2, cap=45 if quick else 150, **ykw)
         for _ in range(max(1, int((1 if quick else 2) * scale)) if (not quick or rng.random() < 0.5) else 0):
-            add_twin("E", sname, 2, max_pre=max_pre, cap=60 if quick else 250, **ykw)
+            add_twin("E", sname, 2, max_pre=max_pre, cap=45 if quick else 150, **ykw)
         if not quick and any(k.startswith("opt-") for k in vk):
             add_twin("E", sname, 3, max_pre=2, cap=200, **ykw)
     for sname in TWIN_A_SHAPES:
         for _ in range(max(1, int((1 if quick else 2) * scale))):
-            add_twin("A", sname, 2, max_pre=max_pre, cap=100 if quick else 400)
+            add_twin("A", sname, 2, max_pre=max_pre, cap=70 if quick else 250)
     for sname in (rng.sample(TWIN_SHAPES, 4) if quick else TWIN_SHAPES):
-        add_twin("B", sname, 2, max_pre=max_pre, nsched=20 if quick else 30)
+        add_twin("B", sname, 2, max_pre=max_pre, nsched=14 if quick else 30)
     # SerializableField items in collections: a constructing / assigning thread against a deserializing one (the
     # deserializer's pre-pass works on the same shared item Field objects), all on the same field
     def add_ops(stream, sname, ops, **kw):
@@ -1985,15 +1986,15 @@ def gen_cases(rng, tier, scale=1.0):
         cases.append(c)
 
     for sname in SER_SHAPES:
-        add_ops("E", sname, ["construct", "deserialize"], max_pre=2, cap=80 if quick else 300)
+        add_ops("E", sname, ["construct", "deserialize"], max_pre=2, cap=60 if quick else 200)
         if not quick or rng.random() < 0.5:
             add_ops("E", sname, [rng.choice(["setattr", "construct", "deserialize"]) for _ in range(2)], max_pre=max_pre,
-                    cap=60 if quick else 300)
+                    cap=45 if quick else 200)
         if not quick:
             add_ops("E", sname, ["deserialize", "deserialize", "construct"], max_pre=2, cap=200)
     for sname in (rng.sample(SER_SHAPES, 3) if quick else SER_SHAPES):
         add_ops("B", sname, [rng.choice(["construct", "deserialize", "serialize", "setattr"]) for _ in range(2)],
-                max_pre=max_pre, nsched=20 if quick else 40)
+                max_pre=max_pre, nsched=14 if quick else 40)
     # classes with mappers from a COLD start (fresh classes for every schedule): first (de)serializations race
     cold_e = rng.sample(COLD_SHAPES, 2) if quick else COLD_SHAPES
     for sname in COLD_SHAPES:
@@ -2001,7 +2002,7 @@ def gen_cases(rng, tier, scale=1.0):
             [["deserialize", "deserialize"], ["serialize", "deserialize"], ["serialize", "serialize"],
              ["construct", "deserialize"], ["deserialize", "serialize", "deserialize"]]
         for ops in mixes:
-            add_ops("B", sname, ops, max_pre=max_pre, nsched=15 if quick else 35)
+            add_ops("B", sname, ops, max_pre=max_pre, nsched=11 if quick else 35)
         if sname in cold_e:
             # exhaustively at every line of the functions that fill a module-level cache (translator rows); the
             # serialization and the deserialization side have separate caches: same-direction pairs
@@ -2011,10 +2012,10 @@ def gen_cases(rng, tier, scale=1.0):
     # the field implementations / generic __set__, _validate (table independent) + line-level sampling
     for sname in ENUM_SHAPES:
         add_ops("E", sname, [rng.choice(["setattr", "construct"]) for _ in range(2)], max_pre=1 if quick else 2,
-                cap=100 if quick else 300, **{"yield": "fieldlines"})
+                cap=70 if quick else 200, **{"yield": "fieldlines"})
         if not quick or rng.random() < 0.5:
             add_ops("B", sname, [rng.choice(["setattr", "construct", "deserialize"]) for _ in range(3 if not quick else 2)],
-                    max_pre=max_pre, nsched=20 if quick else 40)
+                    max_pre=max_pre, nsched=14 if quick else 40)
     # the same exhaustive every-field-line stream on a few of the other flat shapes
     # (racy shapes included: there the schedules do NOT depend on what the translator found, so a shared write it missed
     # still produces a failing input)
@@ -2025,7 +2026,7 @@ def gen_cases(rng, tier, scale=1.0):
         if sname.startswith("twin_"):
             add_twin("E", sname, 2, max_pre=1, cap=200, **{"yield": "fieldlines"})
         else:
-            add("E", sname, 2, max_pre=1, cap=120 if quick else 200, **{"yield": "fieldlines"})
+            add("E", sname, 2, max_pre=1, cap=80 if quick else 200, **{"yield": "fieldlines"})
     # collect-all error mode for the whole schedule: a deserializing thread (multi-field wrapper with a nested-structure
     # option) against a constructing thread whose input has several invalid fields; exception class and full message are
     # compared with the sequential result, and the process-wide mode flags must be what they were
@@ -2039,7 +2040,7 @@ def gen_cases(rng, tier, scale=1.0):
                                                                                     "who": gen_value(rng, "multi_nested", "who")}}
             c = {"stream": stream, "shape": "multi_nested", "threads": [a, b], "modes": modes, "sseed": rng.randrange(1 << 30),
                  "max_pre": 1 if (quick or stream == "E") else max_pre}
-            c.update({"cap": 200, "yield": "sitelines"} if stream == "E" else {"nsched": 25 if quick else 80})
+            c.update({"cap": 200, "yield": "sitelines"} if stream == "E" else {"nsched": 16 if quick else 80})
             if stream == "B" or modes:
                 cases.append(c)
     if not quick:
@@ -2057,7 +2058,7 @@ def gen_cases(rng, tier, scale=1.0):
         cases.append(c)
 
     for sname, share in (("shared_ref", ["currency"]), ("shared_ref", ["currency", "fallback"]), ("shared_default", [])):
-        add_shared("B", sname, share, max_pre=max_pre, nsched=20 if quick else 50)
+        add_shared("B", sname, share, max_pre=max_pre, nsched=14 if quick else 50)
         if not quick:
             add_shared("B", sname, share, n=3, max_pre=max_pre, nsched=40)
         add_shared("E", sname, share, max_pre=1 if quick else 2, cap=200, **{"yield": "sitelines"})
@@ -2073,7 +2074,7 @@ def gen_cases(rng, tier, scale=1.0):
             ths.append(th)
         c = {"stream": stream, "shape": "mapper_hist", "threads": ths, "warmup": {"adhoc": 300 if quick else 1100},
              "sseed": rng.randrange(1 << 30), "max_pre": 1 if (quick or stream == "E") else max_pre}
-        c.update({"cap": 300, "yield": "sitelines"} if stream == "E" else {"nsched": 20 if quick else 80})
+        c.update({"cap": 300, "yield": "sitelines"} if stream == "E" else {"nsched": 14 if quick else 80})
         cases.append(c)
     # fixed operation mixes (values still random): cold-cache serialization races, scalar assignment, wrappers
     for sname, ops in CANONICAL_B:
@@ -2086,7 +2087,7 @@ def gen_cases(rng, tier, scale=1.0):
             else:
                 ths.append({"op": op, "kw": {g: gen_value(rng, sname, g, bad=0.0 if op == "serialize" else 0.1) for g in fs}})
         cases.append({"stream": "B", "shape": sname, "threads": ths, "sseed": rng.randrange(1 << 30),
-                      "max_pre": max_pre, "nsched": 30 if quick else 100})
+                      "max_pre": max_pre, "nsched": 18 if quick else 100})
     # scalar SerializableFields (DateField / DateTime / TimeField / DecimalNumber / Enum): both threads handle EQUAL inputs
     # (the records of one day) after a HISTORY in which the same fields handled other values; exhaustive single
     # pre-emption at every line of extfields/ and of every deserialize / serialize method
@@ -2123,22 +2124,22 @@ def gen_cases(rng, tier, scale=1.0):
             ths.append({"op": rng.choice(["construct", "deserialize"]),
                         "kw": {"ssid": same if (k % 2 == 0 or i == 0) else "other%d" % i, "n": _int(rng, 0.0)}})
         cases.append({"stream": "E", "shape": "unique_field", "threads": ths, "sseed": rng.randrange(1 << 30), "max_pre": 1,
-                      "cap": 120 if quick else 300, "yield": "fieldlines", "modes": {"uniqueness_features_enabled": True}})
+                      "cap": 80 if quick else 300, "yield": "fieldlines", "modes": {"uniqueness_features_enabled": True}})
     # BYTECODE-level pre-emption inside the functions of the shared-write table (CPython's real granularity): every
     # attribute / item / global access and call of a site function is a yield point; exhaustive for one pre-emption
     # (quick) / two (thorough); oracle only
     ops_shapes = [x for x in A_SHAPES + A2_SHAPES if shape(x).racy or x in ("array_two_fields", "anyof", "immset")]
     for sname in (rng.sample(ops_shapes, 3) if quick else ops_shapes):
-        add("E", sname, 2, max_pre=1 if quick else 2, cap=150 if quick else 200, **{"yield": "siteops"})
+        add("E", sname, 2, max_pre=1 if quick else 2, cap=150 if quick else 120, **{"yield": "siteops"})
     for sname in (rng.sample(COLD_SHAPES, 1) if quick else COLD_SHAPES):
         for ops in ([["deserialize", "deserialize"]] if quick else [["deserialize", "deserialize"], ["serialize", "serialize"]]):
             add_ops("E", sname, ops, max_pre=1, cap=400, **{"yield": "siteops"})
-    reps_b = max(1, int((1 if quick else 4) * scale))
+    reps_b = max(1, int((1 if quick else 3) * scale))
     for sname in (rng.sample(ALL_SHAPES, 11) if quick else ALL_SHAPES):
         for _ in range(reps_b):
-            add("B", sname, 3 if rng.random() < 0.2 else 2, max_pre=max_pre, nsched=20 if quick else 35)
+            add("B", sname, 3 if rng.random() < 0.2 else 2, max_pre=max_pre, nsched=14 if quick else 25)
     prng = random.Random(len(cases))     # own generator: the probes do not shift the case stream
     for c in cases:
-        if c["stream"] != "A" and (not quick or prng.random() < 0.3):
+        if c["stream"] != "A" and (not quick or prng.random() < 0.12):
             c["probe"] = "wide"
     return cases
